@@ -68,15 +68,24 @@ Definition name_from_string (s : list N) : site (list N) :=
 Definition pc_from_i64 (v : Z) : Z := as_usize v.                   (* `* = v`, start = v, pc = v *)
 (* the range check where a value enters the program counter (`* =`, ConfigExtractor::check_address for start / pc) *)
 Definition diag_pc_out_of_range : nat := 8%nat.
+(* the segment options start / pc are addresses: 0..segment_address_limit *)
 Definition address_check (v : Z) : site Z :=
+  if pc_values_checked && negb ((0 <=? v) && (v <=? segment_address_limit)) then SDiag diag_pc_out_of_range else SOk (pc_from_i64 v).
+(* `* = v`: an address, or the end of the address space: 0..pc_limit *)
+Definition pc_value_check (v : Z) : site Z :=
   if pc_values_checked && negb ((0 <=? v) && (v <=? pc_limit)) then SDiag diag_pc_out_of_range else SOk (pc_from_i64 v).
+(* Bank::prg_header(range.start): `debug_assert!(pc < 65536)` *)
+Definition prg_header (start : Z) : site (Z * Z) := if start <? 65536 then SOk (start mod 256, (start / 256) mod 256) else SPanic.
+(* register_all_segment_symbols meets a symbol of the program at `segments.<name>.start`: the assembler's symbol has no span *)
+Definition diag_redefine : nat := 11%nat.
+Definition spanless_clash : site unit := if spanless_clash_reported then SDiag diag_redefine else SPanic.
 (* the invariant the range checks establish for the pc of a segment (initial, target): inside 0..pc_limit, and the
    relocated pc is not negative *)
 Definition pc_ok (pc initial target : Z) : Prop :=
   0 <= pc <= pc_limit /\ 0 <= initial <= pc_limit /\ 0 <= target <= pc_limit /\ 0 <= pc + (target - initial).
 (* `* = v` with the current segment's target offset (None: no current segment): the new pc, if one is set *)
 Definition set_pc_site (v : Z) (offset : option Z) : site (option Z) :=
-  match address_check v with
+  match pc_value_check v with
   | SDiag d => SDiag d
   | SPanic => SPanic
   | SOk pc => match offset with
